@@ -3,6 +3,8 @@
 definitions (inside namespace P2.Extracted.C10):
   dropCondition        the condition under which Drop spawns the clean-up task
   permitMovedIntoTask  `let permit = self.permit.clone();` precedes the spawn (the task owns the permit)
+  txStmts              the statements of `SqliteStore::tx()` (comments removed): lock, look into the slot through
+                       the guard, call the closure while the guard is alive
   dropTaskStmts        the statements of the spawned async block, in order (comments and the cfg-guarded
                        verification schedule points removed)
 Any shape it does not recognise is an error (the proof stage then fails)."""
@@ -27,6 +29,13 @@ task = sp.group(1)
 # remove the verification schedule points (attribute + the statement it guards)
 task = re.sub(r"#\[cfg\(p2panda_p2panda_verif\)\]\s*[^;]*;", "", task)
 stmts = [" ".join(l.split()) for l in task.split("\n") if l.strip()]
+# --- SqliteStore::tx(): the MutexGuard of the slot must stay alive across the closure call ---------------
+t = re.search(r"pub async fn tx<F, R>\(&self, f: F\) -> Result<R, SqliteError>\s*where(.*?)\{(.*?)\n    \}\n", src, re.S)
+if not t:
+    sys.exit("SqliteStore::tx not found")
+txbody = re.sub(r"//[^\n]*", "", t.group(2))
+txstmts = [" ".join(x.split()) for x in re.split(r"(?<=;)", txbody) if x.strip()]
+print("def txStmts : List String := [" + ", ".join(json.dumps(x) for x in txstmts) + "]")
 print(f"def dropCondition : String := {json.dumps(cond)}")
 print(f"def permitMovedIntoTask : Bool := {'true' if moved else 'false'}")
 print("def dropTaskStmts : List String := [" + ", ".join(json.dumps(x) for x in stmts) + "]")
